@@ -317,7 +317,74 @@ func runRef(x *h.Ctx, c RefCase) string {
 	return ""
 }
 
+// ---------------------------------------------------------------------------
+// long pass-through chains: a consistent program is accepted however long the
+// path an array type has to travel (down a chain, up a chain, around a cycle),
+// and an inconsistent one is rejected.
+
+type ChainCase struct {
+	N      int    `json:"n"`
+	Shape  string `json:"shape"` // down (type known at the caller) | up (type known at the last callee) | cycle
+	Broken bool   `json:"broken"`
+	Rev    bool   `json:"rev"` // definitions in reverse order
+}
+
+func enumChain(thorough bool, yield func(ChainCase) bool) {
+	for _, n := range []int{2, 3, 10, 50, 99, 100, 101, 102, 150, 300} {
+		for _, shape := range []string{"down", "up", "cycle"} {
+			for _, broken := range []bool{false, true} {
+				for _, rev := range []bool{false, true} {
+					if !yield(ChainCase{N: n, Shape: shape, Broken: broken, Rev: rev}) {
+						return
+					}
+				}
+			}
+		}
+	}
+}
+
+func runChain(x *h.Ctx, c ChainCase) string {
+	var defs []string
+	for i := 0; i < c.N; i++ {
+		switch {
+		case i == c.N-1 && c.Shape == "down":
+			defs = append(defs, fmt.Sprintf("function f%d(a) { return length(a) }", i))
+		case i == c.N-1 && c.Shape == "up":
+			defs = append(defs, fmt.Sprintf("function f%d(a) { a[1] = 1; return length(a) }", i))
+		case i == c.N-1: // cycle: the last calls the first again (guarded), and uses the array
+			defs = append(defs, fmt.Sprintf("function f%d(a) { if (0) f0(a); a[2] = 2; return length(a) }", i))
+		default:
+			defs = append(defs, fmt.Sprintf("function f%d(a) { return f%d(a) }", i, i+1))
+		}
+	}
+	if c.Rev {
+		for i, j := 0, len(defs)-1; i < j; i, j = i+1, j-1 {
+			defs[i], defs[j] = defs[j], defs[i]
+		}
+	}
+	main := "BEGIN { x[1] = 1; x[2] = 2; print f0(x) }"
+	if c.Shape == "up" {
+		main = "BEGIN { print f0(x); print length(x) }"
+	}
+	if c.Broken {
+		main += "\nBEGIN { x = 5 }" // x is an array everywhere else
+	}
+	src := strings.Join(defs, "\n") + "\n" + main + "\n"
+	_, err := parser.ParseProgram([]byte(src), nil)
+	switch {
+	case c.Broken && err == nil:
+		return fmt.Sprintf("a program that uses x both as an array (through a chain of %d functions, shape %s) and as a scalar is accepted", c.N, c.Shape)
+	case !c.Broken && err != nil:
+		return fmt.Sprintf("a consistent program is rejected: %v\n(an array passed through a chain of %d functions, shape %s, reversed definitions: %v)\nfirst lines:\n%s", err, c.N, c.Shape, c.Rev, h.Trunc(src, 400))
+	}
+	if c.N >= 50 {
+		x.Nontrivial("")
+	}
+	return ""
+}
+
 func init() {
+	h.Enum("long_pass_through_chains", enumChain, runChain)
 	h.Prop("verdict_behaviour_invariance", 24000, 400000, genCase, run)
 	h.Enum("array_parameter_operations", enumRef, runRef)
 }
